@@ -304,6 +304,52 @@ def run(ctx):
         r.ok('no accumulating kernel writes a reused local scratch buffer inside a loop', loc='src/builtin', trivial=True)
     r.require_min(1)
 
+    # ---------------- R04i coefficient rows of reconstruct
+    r = ctx.rule('R04i', 'built-in RS reconstruct: every coefficient row handed to region_dot_product is a row of the inverse or a freshly zeroed local row',
+                 'the parity row is accumulated with ^=: built in a buffer that is not zero to begin with (a matrix left over from the inversion) it carries that content into the rebuilt parity')
+    from ..cfg import dominators as _d4, dominates as _dm4
+    cands = [m.functions.get('@liberasurecode_rs_vand_reconstruct') for m in P.mods if m.src == 'src/builtin/rs_vand/liberasurecode_rs_vand.c']
+    cands = [x for x in cands if x is not None]
+    if not cands:
+        raise AnalysisBroken('anchor vanished: built-in liberasurecode_rs_vand_reconstruct')
+    g = cands[0]
+    idom4 = _d4(g)
+    def root_alloc(v, depth=0):
+        v = strip_ptr_casts(g, v)
+        d = g.defs.get(v)
+        while d is not None and d.op in ('getelementptr', 'bitcast') and depth < 8:
+            v = strip_ptr_casts(g, d.ops[0]); d = g.defs.get(v); depth += 1
+        return d
+    inv = [i for i in g.insts() if i.op == 'call' and i.callee == '@gaussj_inversion']
+    inv_root = root_alloc(inv[0].ops[1]) if inv else None
+    ndp = 0
+    for c in [i for i in g.insts() if i.op == 'call' and i.callee == '@region_dot_product']:
+        ndp += 1
+        rt = root_alloc(c.ops[2])
+        inst = f'liberasurecode_rs_vand_reconstruct: coefficient row of the dot product at line {c.line}'
+        if rt is not None and inv_root is not None and rt is inv_root:
+            r.ok(inst + ': a row of the inverse', func=g.name, loc=c.loc)
+            continue
+        zeroed = False
+        if rt is not None and rt.op == 'call' and rt.callee == '@calloc':
+            zeroed = True
+        elif rt is not None and rt.op == 'call' and rt.callee == '@malloc':
+            A4, _ = derived_pointers(g, [rt.res])
+            for ms in g.insts():
+                if ms.op == 'call' and (ms.callee or '').startswith('@llvm.memset') and ms.ops[0] in A4 and ms.ops[1] == '0' and \
+                   (ms.bb is c.bb and ms.idx < c.idx or (ms.bb is not c.bb and _dm4(idom4, ms.bb, c.bb))):
+                    zeroed = True
+        if zeroed:
+            r.ok(inst + ': a local row, zero-filled before it is accumulated into', func=g.name, loc=c.loc)
+        else:
+            what = (rt.callee if rt is not None and rt.op == 'call' else 'a value that is not a local allocation')
+            r.fail(inst, func=g.name, sig='coefficient row is neither an inverse row nor a zeroed local', loc=c.loc,
+                   msg=f'the row multiplied into the rebuilt fragment is built in {what} at line {rt.line if rt is not None else "?"}, which is neither the inverse matrix nor '
+                       'a buffer cleared beforehand: the ^= accumulation starts from whatever that buffer held')
+    if not ndp:
+        r.undecided('reconstruct: dot products', loc=g.mod.src, msg='no region_dot_product call found')
+    r.require_min(2)
+
     # ---------------- R04h one construction of the generator
     r = ctx.rule('R04h', 'the generator has one construction: whatever make_systematic_matrix returns is the matrix create_non_systematic_vand_matrix built, which is its single allocation',
                  'the parity coefficients are defined by the elimination of the Vandermonde matrix for every shape: a second, shape-specific way of writing the matrix down is a second code')
